@@ -276,6 +276,77 @@ func depth2(lv []*Expr) *core.Family {
 	}
 }
 
+// arithmetic shapes: every tree with up to 3 operator nodes over + - * and unary minus,
+// over leaves that make associativity observable (overflow in exactly one grouping).
+// A lost parenthesis between two arithmetic operators changes the value only near the
+// int64 limits, which the general pairing family's small leaves cannot show.
+type arithShape struct {
+	build func(l []*Expr) *Expr
+	slots int
+	name  string
+}
+
+func arithShapes(maxOps int) []arithShape {
+	bins := []struct {
+		op   Op
+		name string
+	}{{OAdd, "+"}, {OSub, "-"}, {OMul, "*"}}
+	byN := make([][]arithShape, maxOps+1)
+	byN[0] = []arithShape{{func(l []*Expr) *Expr { return l[0] }, 1, "x"}}
+	for n := 1; n <= maxOps; n++ {
+		for _, c := range byN[n-1] {
+			c := c
+			byN[n] = append(byN[n], arithShape{func(l []*Expr) *Expr { return Un(ONeg, c.build(l)) }, c.slots, "neg(" + c.name + ")"})
+		}
+		for _, b := range bins {
+			b := b
+			for k := 0; k <= n-1; k++ {
+				for _, l := range byN[k] {
+					for _, r := range byN[n-1-k] {
+						l, r := l, r
+						byN[n] = append(byN[n], arithShape{func(x []*Expr) *Expr { return Bin(b.op, l.build(x[:l.slots]), r.build(x[l.slots:])) }, l.slots + r.slots, "(" + l.name + b.name + r.name + ")"})
+					}
+				}
+			}
+		}
+	}
+	var out []arithShape
+	for n := 2; n <= maxOps; n++ {
+		out = append(out, byN[n]...)
+	}
+	return out
+}
+
+func arithmetic(maxOps int) *core.Family {
+	shapes := arithShapes(maxOps)
+	lv := []*Expr{L(Long(0)), L(Long(1)), L(Long(-1)), L(Long(2)), L(Long(gen.MaxI)), L(Long(gen.MinI)), Access(Var("context"), "a")}
+	nl := int64(len(lv))
+	return &core.Family{
+		Name: "arithmetic-shapes",
+		Desc: fmt.Sprintf("every tree with 2..%d operator nodes over {+, -, *, unary -} (%d shapes) x all leaf tuples over {0, 1, -1, 2, max, min, context.a}: a lost or misplaced parenthesis changes the value only through overflow", maxOps, len(shapes)),
+		N:    int64(len(shapes)),
+		Run: func(t *core.T, i int64) {
+			sh := shapes[i]
+			total := pow(int(nl), sh.slots)
+			ls := make([]*Expr, sh.slots)
+			var last *Expr
+			for r := int64(0); r < total; r++ {
+				x := r
+				for j := sh.slots - 1; j >= 0; j-- {
+					ls[j] = lv[x%nl]
+					x /= nl
+				}
+				e := sh.build(ls)
+				last = e
+				checkExpr(t, "arith:"+sh.name, e, false)
+			}
+			if last != nil {
+				t.SampleF(func() string { return string(fromBuilder(last).MarshalCedar()) })
+			}
+		},
+	}
+}
+
 // every Unicode scalar value in every string position.
 func scalars(lo, hi rune, name string) *core.Family {
 	const block = 256
@@ -444,6 +515,11 @@ func Check() *core.Check {
 			full := gen.Leaves(gen.V)
 			small := gen.Leaves(gen.W)
 			fams := []*core.Family{heads(), containers(), depth1(full, "depth1-values")}
+			if tier == "thorough" {
+				fams = append(fams, arithmetic(4))
+			} else {
+				fams = append(fams, arithmetic(3))
+			}
 			if tier == "thorough" {
 				fams = append(fams, depth2(small[:10]), scalars(0, 0x10FFFF, "unicode-all-scalars"))
 			} else {
